@@ -64,9 +64,11 @@ def run_spec(ctx, rep, spec, model, only=None):
     # the selector is an object that can be reused: half of the queries go through shared selectors,
     # in an order that hops between levels and boxes
     shared = {}
+    limited = {}
     if only is None:
         ctx.rng.shuffle(pts)
-    for n, (lv, bid, c, pt) in enumerate(pts):
+    for n, item in enumerate(pts):
+        lv, bid, c, pt = item[:4]
         nl = list(names)
         forms = [0, nl[-1], [0, nf - 1], list(range(nf)), nl[::-1], [nf - 1, 0], [-1, -2], -1, [0, 0, nf - 1]]
         if nf >= 3:
@@ -80,17 +82,34 @@ def run_spec(ctx, rep, spec, model, only=None):
         loc = tuple(c[d] - lo[d] for d in range(3))
         idx = [(names[f] if isinstance(f, str) else f % nf) for f in (fsel if isinstance(fsel, list) else [fsel])]
         want = [float(truth[(lv, bid)][loc + (k,)]) for k in idx]
+        nlev_ = len(spec["levels"])
+        args = list(pt)
+        how = case_how = None
+        if all(float(x).is_integer() for x in pt) and (n % 2 == 1 or only is not None):
+            # a cell centre whose coordinates are whole numbers, given as integers (Python ints / numpy integers)
+            args = [int(x) for x in pt] if n % 4 == 1 else [np.int64(x) for x in pt]
+            case["int_coords"] = True; rep.count("integer-typed-coordinates")
+        klim = None
+        if only is None and lv < nlev_ - 1 and n % 5 == 3:
+            klim = lv + (n // 5) % (nlev_ - 1 - lv)          # a reader opened with a level limit below the file's finest level
+        elif only is not None and len(only) > 4:
+            klim = only[4]
         try:
             with alarm(60), quiet(), pools.controlled():
-                if n % 2 == 0 or only is not None:
-                    got = pck[fsel](*pt)
+                if klim is not None:
+                    case["limit"] = klim; rep.count("level-limited-reader")
+                    if klim not in limited:
+                        limited[klim] = PlotfileCooker(path, limit_level=klim)
+                    got = limited[klim][fsel](*args)
+                elif n % 2 == 0 or only is not None:
+                    got = pck[fsel](*args)
                 else:
                     key = repr(fsel)
                     if key not in shared:
                         shared[key] = pck[fsel]
                     case["reused_selector"] = True
                     rep.count("reused-selector")
-                    got = shared[key](*pt)
+                    got = shared[key](*args)
         except Exception as e:
             rep.fail(f"query at an interior cell centre raised {type(e).__name__}: {e}", case)
             continue
@@ -142,6 +161,10 @@ def run(ctx, rep, model=True):
         if i % 3 == 2:
             spec["data"]["field_scale"] = [1e5, 1e-12, 3e-7]        # e.g. pressure next to radical mass fractions
             rep.count("fields-of-very-different-magnitudes")
+        if i % 6 == 3 and len(spec["levels"]) >= 2:
+            # a domain whose lower corner is fractional and whose level-1 cell centres are whole numbers
+            spec["geo_low"] = [-3.5, 0.5, -1.5]; spec["dx0"] = [2.0, 2.0, 2.0]
+            rep.count("whole-number-cell-centres")
         run_spec(ctx, rep, spec, model)
         if len(rep.violations) >= 10:
             return
@@ -152,4 +175,4 @@ def replay(ctx, rep, obj, model=True):
     if c.get("outside") or c.get("reused_selector"):
         run_spec(ctx, rep, c["spec"], model)
     else:
-        run_spec(ctx, rep, c["spec"], model, only=(c["level"], c["box"], c["cell"], c["point"]))
+        run_spec(ctx, rep, c["spec"], model, only=(c["level"], c["box"], c["cell"], c["point"]) + ((c["limit"],) if "limit" in c else ()))
